@@ -275,6 +275,8 @@ def load_one(lit: LineIterator, norm_threshold: float = 1e-4) -> dict:
     }
     # The $CHARGES section is optional: without it, leave the (empty) default of IOData.
     if atcharges is not None:
+        if len(atcharges["mulliken"]) != len(atnums):
+            raise LoadError("The number of charges in $CHARGES differs from the number of atoms.", lit)
         result["atcharges"] = atcharges
     _fix_molden_from_buggy_codes(result, lit, norm_threshold)
     return result
